@@ -1,8 +1,10 @@
 import VlsModel.Drv.Common
-/- Line-protocol models serving property C16 (none yet). -/
+import VlsModel.Drv.KVV
+/- Line-protocol models serving property C16. -/
 namespace VlsModel.Drv.C16
 open VlsModel.Drv
 
-def models : List (String × Model) := []
+def models : List (String × Model) :=
+  [ ("kvv_pair", KVV.pairModel), ("kvv_cloud", KVV.cloudModel) ]
 
 end VlsModel.Drv.C16
